@@ -15,6 +15,7 @@
 import MvModel.CoreDrv
 import MvModel.Content
 import MvModel.Blake3
+import MvModel.BlobReader
 namespace Mv.Content
 open Mv
 
@@ -22,6 +23,11 @@ structure DState where
   core : Mv.Core.Mem := Mv.Core.Mem.create
   st : Store := {}
   table : List (Int × Bytes × Bytes) := []
+  /-- streaming readers (MvModel/BlobReader.lean): the file region `[bbase, bbase + file.length)` -/
+  bsys : Mv.Blob.Sys := { w := { file := [], off := 0 }, rs := [] }
+  bbase : Nat := 0
+  /-- handle `h` is an in-memory cursor when `bmem[h] = some _` -/
+  bmem : List (Option Mv.Blob.MemReader) := []
 
 /-- the codec the real run exhibited: a finite table of (level, plain) ↦ stored -/
 def tableCodec (t : List (Int × Bytes × Bytes)) : Codec :=
@@ -106,6 +112,64 @@ def showPending (pend : List (Nat × Entry)) : String :=
 
 def EARLY : Bool := Mv.Gen.C07.DATA_END_ADVANCED_EARLY
 
+def showSeek : Mv.Blob.SeekRes → String
+  | .ok a => s!"ok {a}"
+  | .error .overflow => "err overflow"
+  | .error .beforeStart => "err before-start"
+  | .error .beyondEnd => "err beyond-end"
+
+def parseWhence (w : String) (d : String) : Option Mv.Blob.Whence :=
+  match w with
+  | "s" => d.toNat?.map .start
+  | "c" => (Mv.parseInt d).map .cur
+  | "e" => (Mv.parseInt d).map .fromEnd
+  | _ => none
+
+/-- requests `c7b…` — streaming readers:
+      c7bfile base=<n> bytes=<hex>       the file region the readers live in; drops all readers
+      c7bopen start=<n> len=<n>          File reader over [start, start+len)   → ok <handle>
+      c7bopenm data=<hex>                Memory reader (Cursor)                → ok <handle>
+      c7bread h=<n> n=<n>                → <hex bytes | ->
+      c7bseek h=<n> w=<s|c|e> d=<int>    → ok <pos> | err <overflow|before-start|beyond-end>
+      c7btouch o=<n>                     another access leaves the shared offset at o -/
+def blobStep (d : DState) (op : String) (kv : List (String × String)) : DState × String :=
+  let hexOut (b : Bytes) : String := if b.isEmpty then "-" else Mv.toHex b
+  match op with
+  | "c7bfile" =>
+    ({ d with bsys := { w := { file := getHex kv "bytes", off := 0 }, rs := [] }, bbase := Mv.Core.getN kv "base", bmem := [] }, "ok")
+  | "c7bopen" =>
+    let r : Mv.Blob.FileReader := { start := Mv.Core.getN kv "start" - d.bbase, len := Mv.Core.getN kv "len", pos := 0 }
+    -- blob_reader_from_frame leaves the shared offset at the payload start
+    ({ d with bsys := { w := { d.bsys.w with off := r.start }, rs := d.bsys.rs ++ [r] }, bmem := d.bmem ++ [none] },
+     s!"ok {d.bsys.rs.length}")
+  | "c7bopenm" =>
+    ({ d with bsys := { d.bsys with rs := d.bsys.rs ++ [{ start := 0, len := 0, pos := 0 }] },
+              bmem := d.bmem ++ [some { data := getHex kv "data", pos := 0 }] }, s!"ok {d.bsys.rs.length}")
+  | "c7bread" =>
+    let h := Mv.Core.getN kv "h"
+    let n := Mv.Core.getN kv "n"
+    match d.bmem[h]? with
+    | none => (d, "bad-handle")
+    | some (some m) => let (m', b) := m.read n; ({ d with bmem := d.bmem.set h (some m') }, hexOut b)
+    | some none =>
+      match d.bsys.step (.read h n) with
+      | (s', .bytes b) => ({ d with bsys := s' }, hexOut b)
+      | (s', _) => ({ d with bsys := s' }, "bad-handle")
+  | "c7bseek" =>
+    let h := Mv.Core.getN kv "h"
+    match parseWhence ((kv.lookup "w").getD "") ((kv.lookup "d").getD "") with
+    | none => (d, "bad-op")
+    | some wh =>
+      match d.bmem[h]? with
+      | none => (d, "bad-handle")
+      | some (some m) => let (m', o) := m.seekCursor wh; ({ d with bmem := d.bmem.set h (some m') }, showSeek o)
+      | some none =>
+        match d.bsys.step (.seek h wh) with
+        | (s', .seeked o) => ({ d with bsys := s' }, showSeek o)
+        | (s', _) => ({ d with bsys := s' }, "bad-handle")
+  | "c7btouch" => ({ d with bsys := (d.bsys.step (.disturb (Mv.Core.getN kv "o"))).1 }, "ok")
+  | _ => (d, "bad-op")
+
 
 def drvStep (d : DState) (ws : List String) : DState × String :=
   match ws with
@@ -116,6 +180,7 @@ def drvStep (d : DState) (ws : List String) : DState × String :=
       ({ d with core := r.1 }, r.2)
     else
     let kv := Mv.Core.kvs rest
+    if op.startsWith "c7b" then blobStep d op kv else
     let c := tableCodec d.table
     let fin (r : Store × Out) : DState × String := ({ d with st := r.1 }, showOut r.2)
     match op with
